@@ -6,7 +6,7 @@ From Coq Require Import List ZArith NArith Bool Lia.
 From Lib Require Import ExprSyntax.
 From Gen Require Import Expr.
 From Model Require Import Expr.
-From Proofs Require Import ExprChar ExprParse.
+From Proofs Require Import ExprInd ExprChar ExprParse.
 Import ListNotations.
 Open Scope Z_scope.
 
@@ -21,11 +21,13 @@ Proof. destruct a; cbn [atom_sx atom_val]; [apply eval_num_sx|reflexivity|reflex
 
 Theorem eval_denote E n : eval3 E (denote n) = evaln E n.
 Proof.
-  induction n; cbn [denote evaln]; try reflexivity.
+  induction n as [c|a|l IHl|k|op n1 n2 IHn1 IHn2 IHl|n1 n2 IHn1 IHn2|f n1 n2 IHn1 IHn2|p n IHn|neg n1 n2 IHn1 IHn2|]
+    using node_ind2; cbn [denote evaln]; try reflexivity.
   - apply eval_atom_sx.
   - destruct op as [o| | |].
     + cbn [eval3]. now rewrite IHn1, IHn2.
-    + destruct n2; try reflexivity. cbn [eval3]. now rewrite IHn1.
+    + destruct n2 as [| |l| | | | | | |]; try reflexivity. cbn [eval3]. rewrite IHn1, map_map.
+      now rewrite (map_ext_Forall _ _ (IHl l eq_refl)).
     + destruct n2 as [|[]| | | | | | | |]; try reflexivity. cbn [eval3]. now rewrite IHn1.
     + destruct n2 as [|[]| | | | | | | |]; try reflexivity. cbn [eval3]. now rewrite IHn1.
   - cbn [eval3]. now rewrite IHn1, IHn2.
@@ -63,7 +65,8 @@ Definition is_eqne (o : binop) : bool := match o with BEq | BNe => true | _ => f
 Fixpoint no_eq_null (s : sx) : bool :=
   match s with
   | SBin o a b => no_eq_null a && no_eq_null b && negb (is_eqne o && (is_null_sx a || is_null_sx b))
-  | SNeg a | SPos a | SNot a | SIsNull _ a | SIn _ a _ | SInSub _ a _ => no_eq_null a
+  | SIn _ a l => no_eq_null a && forallb no_eq_null l
+  | SNeg a | SPos a | SNot a | SIsNull _ a | SInSub _ a _ => no_eq_null a
   | _ => true
   end.
 (* trees in which no SQLOp("=" / "<>") has the constant None as an operand: what
@@ -73,6 +76,7 @@ Fixpoint no_eq_none (n : node) : bool :=
   | NSQLOp (OB o) a b => no_eq_none a && no_eq_none b && negb (is_eqne o && (is_none a || is_none b))
   | NSQLOp _ a b | NSQLModulo a b | NSQLCall2 _ a b | NINSubquery _ a b => no_eq_none a && no_eq_none b
   | NSQLPrefix _ a => no_eq_none a
+  | NList l => forallb no_eq_none l
   | _ => true
   end.
 
@@ -89,12 +93,16 @@ Qed.
 
 Lemma no_eq_null_denote n : no_eq_none n = true -> no_eq_null (denote n) = true.
 Proof.
-  induction n; cbn [no_eq_none denote]; try reflexivity.
+  induction n as [c|a|l IHl|k|op n1 n2 IHn1 IHn2 IHl|n1 n2 IHn1 IHn2|f n1 n2 IHn1 IHn2|p n IHn|neg n1 n2 IHn1 IHn2|]
+    using node_ind2; cbn [no_eq_none denote]; try reflexivity.
   - destruct a; try reflexivity. intros _. cbn. unfold num_sx. destruct (z <? 0); reflexivity.
   - destruct op as [o| | |].
     + intros H. apply andb_true_iff in H as [H Hc]. apply andb_true_iff in H as [H1 H2].
       cbn [no_eq_null]. rewrite IHn1, IHn2, !is_null_denote by assumption. exact Hc.
-    + intros H. apply andb_true_iff in H as [H1 H2]. destruct n2; try reflexivity. cbn [no_eq_null]. auto.
+    + intros H. apply andb_true_iff in H as [H1 H2]. destruct n2 as [| |l| | | | | | |]; try reflexivity.
+      cbn [no_eq_null]. rewrite IHn1 by assumption. cbn [andb no_eq_none] in *.
+      specialize (IHl l eq_refl). rewrite Forall_forall in IHl. rewrite forallb_forall in *.
+      intros s Hs. apply in_map_iff in Hs as (c & <- & Hc). apply IHl; auto.
     + intros H. apply andb_true_iff in H as [H1 H2].
       destruct n2 as [|[]| | | | | | | |]; try reflexivity. cbn [no_eq_null]. auto.
     + intros H. apply andb_true_iff in H as [H1 H2].
@@ -199,8 +207,8 @@ Proof. reflexivity. Qed.
 Lemma not3_involutive t : not3 (not3 t) = t.
 Proof. destruct t; reflexivity. Qed.
 Theorem notin_meaning E x l :
-  evaln E (b_NOTIN x (NList l)) = v_in true (evaln E x) (map atom_val l) /\
-  evaln E (b_IN x (NList l)) = v_in false (evaln E x) (map atom_val l).
+  evaln E (b_NOTIN x (NList l)) = v_in true (evaln E x) (map (evaln E) l) /\
+  evaln E (b_IN x (NList l)) = v_in false (evaln E x) (map (evaln E) l).
 Proof.
   split; [|reflexivity]. cbn [b_NOTIN is_select b_NOT b_IN_list evaln]. unfold v_not, v_in.
   now rewrite tv_val_tv.
